@@ -140,6 +140,31 @@ func checkFmt(w *eng.W, fv fmtVal, s ref.Spec, st string) {
 	if got2 != want {
 		w.R.Fail(eng.Case{Op: "Decimal.Append", Args: []string{fv.b.Hex(), st}, Got: strconv.Quote(got2), Want: strconv.Quote(want), Note: fv.v.String()})
 	}
+	// caller-supplied buffers: empty with capacity 1, a prefix in a tight and in a roomy buffer (one per call, rotating)
+	var buf []byte
+	pre := ""
+	switch (len(st) + int(fv.b[15]) + int(fv.b[0])) % 3 {
+	case 0:
+		buf = make([]byte, 0, 1)
+	case 1:
+		buf = append(make([]byte, 0, 3), "ab"...)
+		pre = "ab"
+	case 2:
+		buf = append(make([]byte, 0, 64), "ab"...)
+		pre = "ab"
+	}
+	got3, pan := func() (s string, p any) {
+		defer func() { p = recover() }()
+		return string(d.Append(buf, st)), nil
+	}()
+	w.Eval()
+	w.Cell(fmt.Sprintf("Decimal.Append/caller-buffer/cap%d", cap(buf)), true)
+	if pan != nil {
+		got3 = fmt.Sprint("panic: ", pan)
+	}
+	if got3 != pre+want {
+		w.R.Fail(eng.Case{Op: "Decimal.Append", Args: []string{fv.b.Hex(), st, fmt.Sprintf("buffer %q cap %d", pre, cap(buf))}, Got: strconv.Quote(got3), Want: strconv.Quote(pre + want), Note: fv.v.String()})
+	}
 }
 
 func parseSpec(st string) ref.Spec {
@@ -190,7 +215,22 @@ func init() {
 		if c.Op == "Sprintf" {
 			got = fmt.Sprintf("%"+st, D(b))
 		} else {
-			got = string(D(b).Append(nil, st))
+			var buf []byte
+			pre := ""
+			if len(c.Args) > 2 { // "buffer %q cap %d"
+				var cp int
+				fmt.Sscanf(c.Args[2], "buffer %q cap %d", &pre, &cp)
+				buf = append(make([]byte, 0, cp), pre...)
+			}
+			func() {
+				defer func() {
+					if p := recover(); p != nil {
+						got = fmt.Sprint("panic: ", p)
+					}
+				}()
+				got = string(D(b).Append(buf, st))
+			}()
+			want = pre + want
 		}
 		return strconv.Quote(got), strconv.Quote(want), nil
 	}
